@@ -788,7 +788,7 @@ class Interp:
             self.incomplete(e, 'subscript base %r' % (base,))
         idx = self.index_list(e.slice)
         if all(ix[0] == 'idx' for ix in idx):
-            if arr.shape is not None and len(idx) < len(arr.shape):
+            if arr.shape is not None and not (isinstance(arr.shape, tuple) and arr.shape and arr.shape[0] == 'shape-of') and len(idx) < len(arr.shape):
                 return View(arr, list(idx) + [('slice', None, None)] * (len(arr.shape) - len(idx)))
             return self.read(arr, tuple(ix[1] for ix in idx))
         return View(arr, idx)
